@@ -48,10 +48,10 @@ type slot struct {
 }
 
 const (
-	catNum   = 20
-	pagesNum = 21
-	infoNum  = 22
-	auxBase  = 30 // xref streams, object streams, indirect lengths
+	catNum   = 400
+	pagesNum = 401
+	infoNum  = 402
+	auxBase  = 410 // xref streams, object streams, indirect lengths
 )
 
 // revHook is called after each appended revision; returning false stops.
@@ -76,6 +76,16 @@ func generate(t *tape.Tape, hook revHook, skip func(string)) (img []byte, sigPar
 	}
 	nObj := 1 + t.Draw("nobj", 6)
 	nRev = 1 + t.Draw("nrev", 4)
+	// now and then a history with many objects: cross-reference sections that
+	// span several buffers of any reader, long runs of entries that a newer
+	// revision shadows
+	large := t.Bool("large", 1, 40)
+	if large {
+		nObj = 40 + t.Draw("nobj.large", 120)
+		if nRev < 2 {
+			nRev = 2
+		}
+	}
 	model := map[uint32]*slot{}
 	aux := uint32(auxBase)
 	opts := &gen.Opts{MaxDepth: 2}
@@ -125,6 +135,9 @@ func generate(t *tape.Tape, hook revHook, skip func(string)) (img []byte, sigPar
 			if ri == 0 {
 				wDefine = 8
 			}
+			if large {
+				wDefine = 40 // nearly everything is (re)defined in every revision
+			}
 			switch t.Weighted(l+".act", 3, wDefine, wFree) {
 			case 0:
 				fate += "-"
@@ -132,7 +145,7 @@ func generate(t *tape.Tape, hook revHook, skip func(string)) (img []byte, sigPar
 				gn := sl.gen // in use: same generation; free: the bumped generation recorded in the free entry
 				ref := pdf.NewReference(n, gn)
 				d := revwriter.Def{Ref: ref}
-				if t.Bool(l+".stream", 1, 3) {
+				if !large && t.Bool(l+".stream", 1, 3) {
 					st := &revwriter.Stream{Dict: stripKeys(gen.Dict(t, l+".sd", opts, 1))}
 					st.Mode = revwriter.LengthMode(t.Weighted(l+".lenmode", 4, 2, 2, 2, 2))
 					exact := st.Mode == revwriter.LenDirect || st.Mode == revwriter.LenIndirect
@@ -165,6 +178,9 @@ func generate(t *tape.Tape, hook revHook, skip func(string)) (img []byte, sigPar
 					fate += fmt.Sprintf("S%d", st.Mode)
 				} else {
 					v := gen.TopLevel(t, l+".val", opts)
+					if large {
+						v = pdf.Integer(int(n)*10 + ri) // cheap, and distinct per revision
+					}
 					d.Value = v
 					d.InObjStm = gn == 0 && t.Bool(l+".objstm", 1, 2)
 					if _, isRef := v.(pdf.Reference); isRef {
